@@ -195,3 +195,30 @@ def run(chk):
     eqt = [t for t in M.tests if t.func.node.name == "__eq__" and t.kind == "zero" and isinstance(t.stmt, ast.Return) and isinstance(t.stmt.value, ast.BoolOp) and isinstance(t.stmt.value.op, ast.And)]
     chk.ob("R06.7", "PointJacobi.__eq__ compares cross-multiplied coordinates reduced mod p [%d test(s)]" % len(eqt), len(eqt) >= 2 and all(t.exact and t.operands[0].cls == R for t in eqt),
            loc="ellipticcurve:PointJacobi.__eq__", key="C06|R06.7|crossmul", detail="__eq__ does not compare both cross products modulo p")
+    # representation independence: every coordinate comparison that decides equality depends on the Z of
+    # BOTH operands (cross-multiplication), unless it is dominated by a direct test Z1 == Z2 on the stored Z values
+    decide = [t for t in M.tests if t.func.node.name == "__eq__" and isinstance(t.stmt, ast.Return) and "in" not in {r for r in t.roles if r == "zz"}]
+    eqf = p.func("ellipticcurve:PointJacobi.__eq__")
+    parents = {}
+    for n in ast.walk(eqf.node):
+        for c_ in ast.iter_child_nodes(n):
+            parents[id(c_)] = n
+    nrep = 0
+    for t in decide:
+        if isinstance(t.stmt.value, ast.BoolOp) and isinstance(t.stmt.value.op, ast.Or):
+            continue                      # comparison with the identity (covered by R06.4)
+        nrep += 1
+        deps = frozenset().union(*[o.deps for o in t.operands])
+        zs = {d for d in deps if d[1] == "Z"}
+        ok = {("op1", "Z"), ("op2", "Z")} <= zs
+        if not ok:
+            g = parents.get(id(t.stmt))
+            while g is not None and not ok:
+                if isinstance(g, ast.If):
+                    for gt in M.tests:
+                        if gt.stmt is g and gt.kind == "eq" and all("raw" in o.roles and "Z" in o.roles for o in gt.operands) and {list(o.deps)[0][0] for o in gt.operands if o.deps} == {"op1", "op2"}:
+                            ok = True
+                g = parents.get(id(g))
+        chk.ob("R06.7", "__eq__: `%s` depends on the Z of both operands (or is guarded by Z1 == Z2)" % t.text, ok, loc="src/ecdsa/ellipticcurve.py:%d" % t.node.lineno, key="C06|R06.7|zdep|%s" % t.text,
+               detail="__eq__ decides by `%s`, which ignores the projective scaling of an operand (depends on %s)" % (t.text, sorted(deps)))
+    chk.floor("R06.7", "deciding comparisons in PointJacobi.__eq__", nrep, 2)
